@@ -102,7 +102,7 @@ static std::string dump(const ModelPtr &m)
 static std::string issues(const LoggerPtr &l)
 {
     std::string r;
-    for (size_t i = 0; i < l->issueCount(); ++i) r += std::to_string(int(l->issue(i)->level())) + " " + l->issue(i)->description() + "\n";
+    for (size_t i = 0; i < l->issueCount(); ++i) r += std::to_string(int(l->issue(i)->level())) + " R" + std::to_string(int(l->issue(i)->referenceRule())) + " " + l->issue(i)->description() + "\n";
     return r;
 }
 int main(int argc, char **argv)
